@@ -11,7 +11,8 @@ PKG = "vdr/didweb"
 HARNESS = ["vdr/didweb/zz_verif_c18_test.go"]
 HARNESSES = [("vdr/didweb", ["vdr/didweb/zz_verif_c18_test.go"], "c18"),
              ("vdr", ["vdr/zz_verif_c18_test.go"], "c18vdr"),
-             ("http/client", ["http/client/zz_verif_c18hc_test.go"], "c18hc")]
+             ("http/client", ["http/client/zz_verif_c18hc_test.go"], "c18hc"),
+             ("vdr/didx509", ["vdr/didx509/zz_verif_c18x_test.go"], "c18x")]
 
 SET14 = b"~!$&'()*+,;=:@"
 
@@ -133,6 +134,107 @@ def hc_oracle(op, line, opl, violation, outcomes, feats, distinct):
             violation("cache-ttl-above-cap", "a response is kept longer than maxCacheTime; " + what, opl)
 
 
+X5_ALGS = ("sha1", "sha256", "sha384", "sha512")
+X5_TABLE = {("san", "otherName"): "other", ("san", "dns"): "dns", ("san", "email"): "email", ("san", "ip"): "ip",
+            ("subject", "serialNumber"): "serial", ("subject", "CN"): "cn", ("subject", "L"): "L", ("subject", "C"): "C",
+            ("subject", "ST"): "ST", ("subject", "STREET"): "STREET", ("subject", "O"): "O", ("subject", "OU"): "OU"}
+
+
+def x5_token(s):
+    """(cert, alg) named by a hash token H<k><alg>, else None"""
+    if len(s) > 2 and s[0] == "H" and s[1].isdigit() and s[2:] in X5_ALGS:
+        return int(s[1]), s[2:]
+    return None
+
+
+def x5_policies_hold(idtext, cert):
+    """independent reading of the property: every '::name:key:value[:key:value]' element of the identifier names an attribute
+    of the certificate (python's own split / unquote, not the model's)"""
+    from urllib.parse import unquote_plus
+    for pol in idtext.split("::")[1:]:
+        parts = pol.split(":")
+        if len(parts) < 3 or len(parts) % 2 == 0:
+            return False, f"policy {pol!r} is not name:key:value pairs"
+        for i in range(1, len(parts), 2):
+            field = X5_TABLE.get((parts[0], parts[i]))
+            if field is None:
+                return False, f"policy {pol!r}: unknown attribute"
+            if "%" in parts[i + 1] and re.search(r"%(?![0-9a-fA-F]{2})", parts[i + 1]):
+                return False, f"policy {pol!r}: broken escape"
+            want = unquote_plus(parts[i + 1])
+            have = cert.get(field, [] if field not in ("serial", "cn") else "")
+            if (want != have) if isinstance(have, str) else (want not in have):
+                return False, f"certificate has {field}={have!r}, identifier demands {want!r}"
+    return True, ""
+
+
+def x5_oracle(op, line, opl, violation, outcomes, feats, distinct):
+    kind = op["op"]
+    out = line.split(" ", 1)[1] if " " in line else line
+    outcomes[kind + " " + ":".join(out.split(":")[:2])[:40]] += 1
+    idtext = bytes.fromhex(op.get("id", "")).decode("latin1")
+    if out.startswith("panic:") and not (kind == "x5r" and op.get("chain") == "nil" and out == "panic:nil-metadata"):
+        violation("panic:" + kind, f"{kind} panicked: {line[:200]}", opl)
+        return
+    if not out.startswith("ok"):
+        return
+    distinct.add((kind, op.get("id"), json.dumps(op.get("ids")), op.get("x5t"), op.get("x5s"), op.get("x5tk"), op.get("x5sk"), op.get("chain"), op.get("cert")))
+    head = idtext.split("::")[0].split(":")
+    if kind in ("x5p", "x5r", "x5v") and (len(head) != 3 or head[0] != "0"):
+        violation("x509-identifier-shape-accepted", f"did:x509 identifier {idtext!r} accepted although it is not 0:<alg>:<root hash>[::policy…]", opl)
+    if kind == "x5p":
+        # the reference that was read is the identifier, piece for piece
+        m = re.match(r"ok m=([0-9a-f]*) r=([0-9a-f]*) p=\[(.*)\]$", out)
+        if m:
+            pols = [tuple(bytes.fromhex(x).decode("latin1") for x in q.split(":")) for q in m.group(3).split(",") if q]
+            back = "0:" + bytes.fromhex(m.group(1)).decode("latin1") + ":" + bytes.fromhex(m.group(2)).decode("latin1") + "".join("::" + n + ":" + v for n, v in pols)
+            if back != idtext:
+                violation("x509-reference-not-the-identifier", f"parsed reference re-assembles to {back!r}, identifier was {idtext!r}", opl)
+        return
+    certs = op.get("certs") or []
+    if kind == "x5v":
+        ok, why = x5_policies_hold(idtext, certs[0] if certs else {})
+        if not ok:
+            violation("x509-policy-not-satisfied", f"validatePolicy accepted {idtext!r}: {why}", opl)
+        return
+    ids = op.get("ids") or []
+
+    def named(k, key, alg):
+        """certificate named by thumbprint header, None if header absent / not a string, -1 if it names nothing in the chain"""
+        if op.get(key + "k") != "str":
+            return None
+        t = x5_token(op.get(key, ""))
+        return t[0] if t and t[1] == alg and t[0] in ids else -1
+    n1, n2 = named(0, "x5t", "sha1"), named(0, "x5s", "sha256")
+    if kind == "x5f":
+        got = out.split(":")[1]
+        for n in (n1, n2):
+            if n is not None and str(n) != got:
+                violation("x509-thumbprint-not-matched", f"validation certificate {got} chosen although a thumbprint header names {n} (-1: nothing in the chain)", opl)
+        if n1 is None and n2 is None:
+            violation("x509-thumbprint-not-matched", "validation certificate chosen without any thumbprint header", opl)
+        return
+    # x5r: a document was returned
+    feats["x509-resolved"] += 1
+    if out != "ok:same":
+        violation("document-id-differs", f"did:x509 document id / controller differs from {idtext!r}: {out[:80]}", opl)
+    if op.get("chain") != "ids":
+        violation("x509-resolved-without-chain", f"did:x509 resolved although the x5c header is {op.get('chain')!r}", opl)
+        return
+    rt = x5_token(head[2])
+    if rt is None or rt[1] != head[1].lower() or rt[0] not in ids:
+        violation("x509-root-not-in-chain", f"resolved although the root reference {head[2]!r} ({head[1]}) is the hash of no certificate of the chain {ids}", opl)
+    if (n1 is None and n2 is None) or -1 in (n1, n2) or (n1 is not None and n2 is not None and n1 != n2):
+        violation("x509-thumbprint-not-matched", f"resolved although the thumbprint headers name x5t={n1} x5t#S256={n2} (None absent, -1 nothing in the chain)", opl)
+        return
+    v = n1 if n1 is not None else n2
+    ok, why = x5_policies_hold(idtext, certs[v] if v < len(certs) else {})
+    if not ok:
+        violation("x509-policy-not-satisfied", f"resolved {idtext!r} against certificate {v}: {why}", opl)
+    if not op.get("crl"):
+        violation("x509-revoked-chain-resolved", "resolved although the CRL check of the chain failed", opl)
+
+
 def run(ctx):
     ctx.facts()
     thms = ctx.build_and_audit(["NutsProofs.Props.C18"])
@@ -175,7 +277,8 @@ def run(ctx):
             first = open(ctx.replay).readline()
             is_vdr = '"op":"node"' in first or '"op": "node"' in first
             is_hc = '"op":"hc"' in first or '"op": "hc"' in first
-            if name != ("c18vdr" if is_vdr else "c18hc" if is_hc else "c18"):
+            is_x = '"op":"x5' in first or '"op": "x5' in first
+            if name != ("c18vdr" if is_vdr else "c18hc" if is_hc else "c18x" if is_x else "c18"):
                 continue
         else:
             env["VERIF_CORPUS"] = os.path.join(corpus, name)
@@ -229,6 +332,9 @@ def run(ctx):
             node_line = opl
             continue
         key = (kind, op.get("m"), op.get("id"), op.get("s"), json.dumps(op.get("resps")), op.get("strict"), op.get("allow"), node_line if kind == "resolve" else None)
+        if kind.startswith("x5"):
+            x5_oracle(op, line, opl, violation, outcomes, feats, distinct)
+            continue
         if line.startswith("panic:") or " panic:" in line:
             violation("panic:" + kind, f"{kind} panicked: {line[:200]}", opl)
             continue
